@@ -230,6 +230,17 @@ func runC11(c *Ctx) {
 					map[string]interface{}{"verb": "AUTHSEQ", "case": sx2, "go": res2, "reference_go": resF})
 			}
 		}
+		// an evaluation that hits a limit must not leave the authorizer believing it is
+		// evaluated: Query, then Authorize (which may fail on a limit), then Query again
+		{
+			aq := a
+			aq.Ctor = "for"
+			content := append([]AuthOp{}, a.Ops[:len(a.Ops)-2]...)
+			q := a.Ops[len(a.Ops)-1]
+			aq.Ops = append(append(content, q, AuthOp{K: "authorize"}, q), AuthOp{K: "addfact", Fact: g.fact()}, q)
+			_, sxQ := emitAuth(c, "query-authorize-query", aq)
+			checkLeak("qaq", sxQ)
+		}
 		// the same limits supplied as three separate WithWorldOptions values
 		{
 			as := a
